@@ -315,6 +315,11 @@ def big_cases(ctx):
     if ctx.tier == 'quick' and not ctx.broken:
         u1, o1 = children_for(1024 * KiB)
         plan = [(u1, ('put',)), (o1, fns), (children_for(2048 * KiB)[1], ('post',))]
+    elif ctx.tier == 'quick':          # an obligation broke: wider, still bounded
+        plan = []
+        for k in (64, 256, 1024, 2048):
+            under, over = children_for(k * KiB)
+            plan += [(under, ('put',)), (over, fns)]
     else:
         plan = []
         for k in (64, 128, 256, 512, 1024, 2048, 4096):
@@ -636,8 +641,8 @@ def run(ctx):
                 'labels (legacy names, shuffled insertion order; values: strings, ints, floats, bools, None) over gateway '
                 'spellings %r x schemes %r x trailing slashes %r and the three public functions; a case is non-trivial when '
                 'the job or a value is empty, contains "/" or needs escaping; distinct by URL.  Large registries: exposition sizes '
-                'just under / over powers of two from 64 KiB (quick: just under / over 1 MiB and over 2 MiB; thorough or after a broken obligation: every '
-                'power up to 4 MiB) for all three functions.  Function level: quote_plus, '
+                'just under / over powers of two from 64 KiB (quick: just under / over 1 MiB and over 2 MiB, more sizes after a broken obligation; thorough: '
+                'every power up to 4 MiB) for all three functions.  Function level: quote_plus, '
                 'quote(safe=""), urlsafe_b64encode, _escape_grouping_key, urlparse scheme test/base, both spec decoders vs CPython.'
                 % (REDUCED, FULL, HOSTS, SCHEMES, SLASHES))
     _setup()
